@@ -78,11 +78,17 @@ Theorem C12_eq_hash : forall H Hs,
     rec_eq facts_now H ign a b = Some true -> rec_hash facts_now H Hs ign a = rec_hash facts_now H Hs ign b.
 Proof. intros H Hs Hyp ign a b. exact (rec_eq_hash facts_now H eq_refl Hs Hyp ign a b). Qed.
 
-(* ---- the scoped override is undone on a normal and on an exceptional exit (and the exception propagates);
-   the body is arbitrary: it may set the ignore set again or open further scopes ---- *)
+(* ---- the scoped override is undone however the scope ends -- normally, with an Exception, with a
+   KeyboardInterrupt / SystemExit, by closing or collecting a suspended generator, by return / break / continue
+   ([exit_kind]) -- and the way it ended is passed on unchanged (an exception keeps propagating); the body is
+   arbitrary: it may set the ignore set again or open further scopes ---- *)
 Theorem C12_scope_restored : forall xs (b : body) g,
   fst (with_ignore facts_now xs b g) = g /\ snd (with_ignore facts_now xs b g) = snd (b xs).
 Proof. intros. exact (with_ignore_restores facts_now eq_refl xs b g). Qed.
+
+Theorem C12_scope_restored_every_exit : forall k xs g g',
+  with_ignore facts_now xs (fun _ => (g', k)) g = (g, k).
+Proof. intros k xs g g'. destruct k; reflexivity. Qed.
 
 Theorem C12_scope_restored_nested : forall xs ys (b : body) g,
   fst (with_ignore facts_now xs (with_ignore facts_now ys b) g) = g.
